@@ -358,6 +358,11 @@ def c03(ctx):
             dict(configs="CfgC03two", conns=2, f1=S("notls", "close"), tlsr=S("proceed"), certs=S("valid"), f2=S("mech"),
                  authr=S("success", "failure", "close"), f3=S("bm", "close"), resr=S("resumed", "failed", "other", "unknownel", "close"), bindr=S("result", "error", "close"),
                  sessr=S("result"), enr=S("enabled", "failed", "close"))]
+    # the same alphabets over the WebSocket transport (no STARTTLS stages; wss: with the certificate checked by the dial)
+    gens.append(dict(configs="CfgC03ws", conns=1, f1=S("notls", "bad", "close", "other"), tlsr=S("proceed"), certs=S("valid", "untrusted"), f2=S("mech"),
+                     authr=S("success", "failure", "other", "garbage", "close"), f3=S("b", "bs", "bm", "close"), resr=S("resumed"),
+                     bindr=S("result", "resultempty", "error", "errorecho", "other", "close"), sessr=S("result", "error", "close"),
+                     enr=S("enabled", "enablednoresume", "failed", "failedbare", "other", "close")))
     ctx.notes["bounds"] = "every server behaviour from the per-step alphabets (success variants, failure/error reply, unexpected element, malformed XML, closed) at each of the negotiation steps x {insecure, stream management} (one connection); resumption steps are C11's"
     neg_check(ctx, gens)
 
@@ -372,7 +377,10 @@ def c04(ctx):
             dict(configs="CfgC04multi", conns=2 if q else 3, f1=S("tls", "notls"), tlsr=S("proceed", "failure"),
                  certs=S("valid", "untrusted"), f2=S("mech"), authr=S("success"),
                  f3=S("b", "bm"), resr=S("resumed", "failed"), bindr=S("result"), sessr=S("result"), enr=S("enabled"))]
-    ctx.notes["bounds"] = "Insecure on/off x TLS config {none, CA, CA+ServerName, CA+other ServerName, InsecureSkipVerify} x STARTTLS {not offered, offered, required} x reply {proceed, failure, unexpected, garbage, close} x certificate {valid, wrong host, untrusted, expired, not TLS}; plus 2 (thorough 3) connections on one client object; after the scripted replies the server stays lenient (answers any further request with success) so that a confused client shows what it would send"
+    # WebSocket: ws: must not carry credentials unless insecure mode is on; wss: only after the dial accepted the certificate
+    gens.append(dict(configs="CfgC04ws", conns=1 if q else 2, f1=S("tls", "tlsreq", "notls"), tlsr=S("proceed"), certs=S("valid", "wronghost", "untrusted", "expired"),
+                     f2=S("mech"), authr=S("success", "failure"), f3=S("b"), resr=S("resumed"), bindr=S("result"), sessr=S("result"), enr=S("enabled")))
+    ctx.notes["bounds"] = "Insecure on/off x TLS config {none, CA, CA+ServerName, CA+other ServerName, InsecureSkipVerify} x STARTTLS {not offered, offered, required} x reply {proceed, failure, unexpected, garbage, close} x certificate {valid, wrong host, untrusted, expired, not TLS}; plus 2 (thorough 3) connections on one client object; WebSocket transport: ws:/wss: x Insecure on/off x certificate {valid, wrong host, untrusted, expired}; after the scripted replies the server stays lenient (answers any further request with success) so that a confused client shows what it would send"
     neg_check(ctx, gens)
 
 
@@ -385,6 +393,8 @@ def c11(ctx):
     if not q:
         gens.append(dict(configs="CfgC11b", conns=4, f3=S("bm", "b"), resr=S("resumed", "resumedother", "failed", "other"),
                          enr=S("enabled", "enablednoresume", "failed"), **base))
+    gens.append(dict(configs="CfgC11ws", conns=2 if q else 3, f3=S("bm", "b"), resr=S("resumed", "resumedother", "failed", "faileditem", "close"),
+                     enr=S("enabled", "enablednoresume"), **base))
     ctx.notes["bounds"] = "all histories of %d connections on one client (Connect and Resume as reconnect entry points), stream management advertised or not on each, <enabled> with/without resumption, every reply to <resume/> {resumed same id, other id, failed, failed+item-not-found, unexpected, closed}, 0..2 stanzas received per session" % (3 if q else 4)
     neg_check(ctx, gens)
 
